@@ -55,6 +55,8 @@ structure State where
   /-- `stop` / `batch` lines: origin, actions issued back to back, seq -/
   entries : List Entry := []
   hasBatch : Bool := false
+  /-- c09: the system arbiter hosts a feeding task (no effect on the message-level behaviours) -/
+  sysfeed : Bool := false
   /-- c09: the arbiter whose process-wide number equals the system id (ids are arbitrary in the model) -/
   align : Option Nat := none
   /-- c10: number of command targets (arbiters incl. the system arbiter) -/
@@ -107,7 +109,7 @@ def stripPre (p s : String) : Option String :=
 def prefixedNat? (p s : String) : Option Nat := (stripPre p s).bind nat?
 
 def kindOk (s : String) : Bool :=
-  ["fn", "fut", "pend", "yield", "sleep", "panic", "fnpanic", "block", "gate", "selfjoin", "blocking"].contains s
+  ["fn", "fut", "pend", "yield", "sleep", "panic", "fnpanic", "block", "gate", "selfjoin", "blocking", "pendown"].contains s
 
 def showInt (i : Int) : String := if i < 0 then "-" ++ toString i.natAbs else toString i.natAbs
 
@@ -494,10 +496,12 @@ def step (st : State) (line : String) : State × String :=
     | _ => (ws, [])
   match st.proto, ws with
   | 9, ["arb", k] =>
-    if ["early", "dropped", "running", "busy", "done"].contains k && st.kinds.length < 3 && st.entries.isEmpty
+    if ["early", "dropped", "running", "busy", "done", "feeding"].contains k && st.kinds.length < 3 && st.entries.isEmpty
         && st.align.isNone then
       ({ st with kinds := st.kinds ++ [k] }, s!"ok a{st.kinds.length}")
     else (st, "bad-op")
+  | 9, ["sysfeed"] =>
+    if st.sysfeed || !st.entries.isEmpty then (st, "bad-op") else ({ st with sysfeed := true }, "ok")
   | 9, ["align", k] =>
     match nat? k with
     | some k =>
@@ -519,7 +523,7 @@ def step (st : State) (line : String) : State × String :=
       | _ => (rest, true)
     let acts? : Option (List BAct) := items.mapM fun it =>
       match it with
-      | "nr" => some (.new "running") | "nb" => some (.new "busy")
+      | "nr" => some (.new "running") | "nb" => some (.new "busy") | "nf" => some (.new "feeding")
       | "nd" => some (.new "dropped") | "ne" => some (.new "early")
       | "x" => some .sysArbStop
       | _ => ((stripPre "s" it).bind int?).map .stop
@@ -571,7 +575,7 @@ def step (st : State) (line : String) : State × String :=
     match nat? a, kindOk kind, nat? n with
     | some a, true, some n =>
       if a ≥ st.narb || st.nlines ≥ maxLines || n < 2 || n > 1600 || st.ntask + n > maxTasks || kind == "gate"
-          || kind == "selfjoin" || kind == "blocking" || !viaOkAt st a via then
+          || kind == "selfjoin" || kind == "blocking" || kind == "pendown" || !viaOkAt st a via then
         (st, "bad-op")
       else
         let ts := (List.range n).map (· + st.ntask)
